@@ -32,7 +32,7 @@ Quantified over: {prop['quantifier']['text']}
 Code anchors (where the behaviour lives): {json.dumps(prop.get('anchors'))}
 
 Your scratch git worktree of the repository is {wt} (a detached worktree of HEAD). Work ONLY there and in {wt}-out/. Do not read or
-touch /repo, /verif or anything else outside these; do not commit. Python to use: /venv/bin/python (has the repository's dependencies,
+touch /repo, /verif or anything else outside these; do not commit and do not use `git stash` (the stash is shared with other worktrees). Python to use: /venv/bin/python (has the repository's dependencies,
 httpx, attrs, mypy, ruff at /venv/bin/ruff). Run code against your worktree by putting it first on sys.path
 (`sys.path.insert(0, TREE)` with TREE = os.environ.get("TREE", "{wt}")) — the installed package otherwise points elsewhere. No network.
 In-process generation recipe:
